@@ -329,6 +329,7 @@ def run_and_judge(rep, cases, tag, prop, sigprefix, confirm=True):
         o["out"]["setup_ok"] = "setup_err" not in o["out"]
         o["out"].setdefault("ests", [])
         o["out"].setdefault("listener_before_ack", True)
+        o["out"].setdefault("leftover_goroutines", 0)
     obs_list = [obs[c["name"]] for c in cases if c["name"] in obs]
     r2, dev = vlib.judge_observations("TraceGRPCBroker", "trace_grpcbroker.cfg", obs_list, tag)
     dev = list(dev)
@@ -352,6 +353,7 @@ def run_and_judge(rep, cases, tag, prop, sigprefix, confirm=True):
                 o["out"]["setup_ok"] = "setup_err" not in o["out"]
                 o["out"].setdefault("ests", [])
                 o["out"].setdefault("listener_before_ack", True)
+                o["out"].setdefault("leftover_goroutines", 0)
         ol2 = [o for o in obs2.values() if not o.get("hang")]
         dev2 = set()
         if ol2:
@@ -416,6 +418,8 @@ def run_and_judge(rep, cases, tag, prop, sigprefix, confirm=True):
         rep.violation(sig, "%s pair, %s, scenario family %s%s: establishments %s -- not what the broker specification allows%s" % (
             c["pair"], "multiplexed" if c["mux"] else "plain", fam, (", hold %s" % json.dumps(c["hold"])) if c.get("hold") else "",
             json.dumps([{k: e[k] for k in ("id", "dir", "order", "gap_ms", "nopeer", "dial_ok", "served_by", "main_ok", "kept_ok", "err") if k in e} for e in o["out"].get("ests", [])])[:900],
-            "" if o["out"].get("listener_before_ack", True) else " (a knock was acknowledged before the listener was registered)"),
+            ("" if o["out"].get("listener_before_ack", True) else " (a knock was acknowledged before the listener was registered)")
+            + ("" if not o["out"].get("leftover_goroutines") else " (%d goroutines of the brokers remain after client and server were closed, e.g. %s)" % (
+                o["out"]["leftover_goroutines"], (o["out"].get("goroutine_sample") or [""])[0][:300]))),
             {"case": c, "observation": o})
     return obs_list
